@@ -19,7 +19,7 @@ from simkit.world import serif, snap_any
 
 KEY_POOLS = {
     "int": [-2, -1, 0, 1, V.M61, 7],
-    "str": ["a", "b", "A", "", "zz"],
+    "str": ["a", "b", "A", "", "zz", "a|b", "b|", "|", "a|"],
     "bool": [True, False],
     "date": [V.D1, V.D2, V.D3],
 }
@@ -34,6 +34,14 @@ def gen_case(rng):
         p = list(KEY_POOLS[k])
         rng.shuffle(p)
         pools.append(p[:rng.randint(1, 3)])
+    if nk >= 2 and rng.random() < 0.35:
+        # composite keys whose naive concatenation is ambiguous: ('a|b','') vs ('a','b|'), (1,23) vs (12,3)
+        if rng.random() < 0.6:
+            kkinds = ["str"] * nk
+            pools = [["a|b", "a", "a|"], ["", "b|", "b", "|b"]] + [["x", ""]] * (nk - 2)
+        else:
+            kkinds = ["int"] * nk
+            pools = [[1, 12, 0], [23, 3, 123]] + [[7]] * (nk - 2)
     p_none = rng.choice([0.0, 0.0, 0.15, 0.3])
     nl, nr = rng.randint(0, 7), rng.randint(0, 7)
     # "unique" mode: keys without repetition on both sides, a long left and a short right side,
@@ -45,8 +53,9 @@ def gen_case(rng):
         pools = [list(big[k]) for k in kkinds]
         p_none = 0.0
         nl, nr = rng.randint(4, 9), rng.randint(1, 2)
-    lpay = [rng.choice(PAY_KINDS) for _ in range(rng.randint(0, 2))]
-    rpay = [rng.choice(PAY_KINDS) for _ in range(rng.randint(0, 2))]
+    wide = rng.random() < 0.08          # now and then more than 8 columns on a side
+    lpay = [rng.choice(PAY_KINDS) for _ in range(rng.randint(8, 11) if wide else rng.randint(0, 2))]
+    rpay = [rng.choice(PAY_KINDS) for _ in range(rng.randint(8, 11) if wide and rng.random() < 0.5 else rng.randint(0, 2))]
     names = ["k", "j", "i", "a", "b", "x", "y", "k", "K", "A b", "a_b", "a b", "J"]
     lnames = [rng.choice(names) for _ in range(nk + len(lpay))]
     rnames = [rng.choice(names) for _ in range(nk + len(rpay))]
